@@ -66,15 +66,22 @@ package routing
 //@ ensures result != nil ==> result.Metric == chosen.Metric && result.NextHop == chosen.NextHop && result.OriginAgent == chosen.OriginAgent
 
 //@ func (*Table).RemoveRoutesFromPeer
-//@ prop C10
+//@ prop C08 C10
 //@ check lockset bounds
 //@ modifies *
 //@ loop 1 invariant -1 <= rangeindex && rangeindex < len(routes) && len(filtered) <= rangeindex + 1 && base(filtered) == base(routes) && offset(filtered) == offset(routes) && cap(filtered) == cap(routes)
 //@ loop 1 invariant forall j in 0..len(filtered): filtered[j].NextHop != peerID
 //@ note per key: what is kept has a next hop other than the disconnected peer (inner loop invariant, unbounded); that every other entry is kept, and the table-wide statement over all keys, are not claimed (aliasing between the in-place filter and other keys' backing arrays is not expressible without a disjointness representation invariant)
+//@ loop 1 let wasSorted = forall a in 0..len(routes): forall b in a..len(routes): routes[a].Metric <= routes[b].Metric
+//@ loop 1 invariant wasSorted ==> forall a in 0..len(filtered): forall b in a..len(filtered): filtered[a].Metric <= filtered[b].Metric
+//@ loop 1 invariant wasSorted ==> forall a in rangeindex+1..len(routes): forall b in a..len(routes): routes[a].Metric <= routes[b].Metric
+//@ loop 1 invariant wasSorted && len(filtered) > 0 ==> forall b in rangeindex+1..len(routes): filtered[len(filtered) - 1].Metric <= routes[b].Metric
+//@ at[C08,C10] call builtin.mapupdate assert $1 == key && (forall j in 0..len($2): $2[j].NextHop != peerID)
+//@ at[C08,C10] call builtin.mapupdate assert wasSorted ==> forall a in 0..len($2): forall b in a..len($2): $2[a].Metric <= $2[b].Metric
+//@ note C08: a list sorted by metric when the filter starts is stored sorted (order-preserving in-place filter; per key, see the note on disjointness above)
 
 //@ func (*Table).CleanupStaleRoutes
-//@ prop C10
+//@ prop C08 C10
 //@ check lockset bounds
 //@ modifies *
 //@ loop 1 invariant -1 <= rangeindex && rangeindex < len(routes) && len(kept) <= rangeindex + 1
@@ -82,6 +89,13 @@ package routing
 //@ note per key: every locally originated route of the key is in the kept list (never removed by cleanup)
 //@ at call builtin.delete assert $1 == key && len(kept) == 0 && forall j in 0..len(routes): routes[j].OriginAgent != t.localID
 //@ note a key is dropped from the table only when none of its routes is locally originated
+//@ loop 1 let wasSorted = forall a in 0..len(routes): forall b in a..len(routes): routes[a].Metric <= routes[b].Metric
+//@ loop 1 invariant base(kept) == 0 || base(kept) != base(routes)
+//@ loop 1 invariant wasSorted ==> forall a in 0..len(kept): forall b in a..len(kept): kept[a].Metric <= kept[b].Metric
+//@ loop 1 invariant wasSorted ==> forall a in 0..len(routes): forall b in a..len(routes): routes[a].Metric <= routes[b].Metric
+//@ loop 1 invariant wasSorted && len(kept) > 0 ==> forall b in rangeindex+1..len(routes): kept[len(kept) - 1].Metric <= routes[b].Metric
+//@ at[C08,C10] call builtin.mapupdate assert wasSorted ==> forall a in 0..len($2): forall b in a..len($2): $2[a].Metric <= $2[b].Metric
+//@ note a list sorted by metric when the cleanup of its key starts is stored sorted (lookups take the first entry)
 
 // ======== C09 / C10: domain, forward-key and agent tables (same representation: per key, sorted by metric) ========
 
@@ -293,12 +307,19 @@ package routing
 // key is dropped only when it holds no local route)
 
 //@ func cleanupStaleRoutesInMap
-//@ prop C10
+//@ prop C09 C10
 //@ check bounds
 //@ modifies *
 //@ loop 1 invariant -1 <= rangeindex && rangeindex < len(routes) && len(kept) <= rangeindex + 1
 //@ loop 1 invariant forall j in 0..rangeindex+1: routes[j].OriginAgent == localID ==> exists i in 0..len(kept): kept[i] == routes[j]
 //@ at call builtin.delete assert $1 == key && len(kept) == 0 && forall j in 0..len(routes): routes[j].OriginAgent != localID
+//@ loop 1 let wasSorted = forall a in 0..len(routes): forall b in a..len(routes): routes[a].Metric <= routes[b].Metric
+//@ loop 1 invariant base(kept) == 0 || base(kept) != base(routes)
+//@ loop 1 invariant wasSorted ==> forall a in 0..len(kept): forall b in a..len(kept): kept[a].Metric <= kept[b].Metric
+//@ loop 1 invariant wasSorted ==> forall a in 0..len(routes): forall b in a..len(routes): routes[a].Metric <= routes[b].Metric
+//@ loop 1 invariant wasSorted && len(kept) > 0 ==> forall b in rangeindex+1..len(routes): kept[len(kept) - 1].Metric <= routes[b].Metric
+//@ at call builtin.mapupdate assert wasSorted ==> forall a in 0..len($2): forall b in a..len($2): $2[a].Metric <= $2[b].Metric
+//@ note a list sorted by metric when the cleanup of its key starts is stored sorted (lookups take the first entry)
 
 //@ func (*DomainTable).CleanupStaleRoutes
 //@ prop C10
@@ -307,17 +328,81 @@ package routing
 //@ at call cleanupStaleRoutesInMap assert $1 == t.localID
 
 //@ func (*ForwardTable).CleanupStaleRoutes
-//@ prop C10
+//@ prop C09 C10
 //@ check lockset bounds
 //@ modifies *
 //@ loop 1 invariant -1 <= rangeindex && rangeindex < len(routes) && len(kept) <= rangeindex + 1
 //@ loop 1 invariant forall j in 0..rangeindex+1: routes[j].OriginAgent == t.localID ==> exists i in 0..len(kept): kept[i] == routes[j]
 //@ at call builtin.delete assert $1 == key && len(kept) == 0 && forall j in 0..len(routes): routes[j].OriginAgent != t.localID
+//@ loop 1 let wasSorted = forall a in 0..len(routes): forall b in a..len(routes): routes[a].Metric <= routes[b].Metric
+//@ loop 1 invariant base(kept) == 0 || base(kept) != base(routes)
+//@ loop 1 invariant wasSorted ==> forall a in 0..len(kept): forall b in a..len(kept): kept[a].Metric <= kept[b].Metric
+//@ loop 1 invariant wasSorted ==> forall a in 0..len(routes): forall b in a..len(routes): routes[a].Metric <= routes[b].Metric
+//@ loop 1 invariant wasSorted && len(kept) > 0 ==> forall b in rangeindex+1..len(routes): kept[len(kept) - 1].Metric <= routes[b].Metric
+//@ at call builtin.mapupdate assert wasSorted ==> forall a in 0..len($2): forall b in a..len($2): $2[a].Metric <= $2[b].Metric
+//@ note a list sorted by metric when the cleanup of its key starts is stored sorted (lookups take the first entry)
 
 //@ func (*AgentTable).CleanupStaleRoutes
-//@ prop C10
+//@ prop C09 C10
 //@ check lockset bounds
 //@ modifies *
 //@ loop 1 invariant -1 <= rangeindex && rangeindex < len(routes) && len(kept) <= rangeindex + 1
 //@ loop 1 invariant forall j in 0..rangeindex+1: routes[j].OriginAgent == t.localID ==> exists i in 0..len(kept): kept[i] == routes[j]
 //@ at call builtin.delete assert $1 == agentID && len(kept) == 0 && forall j in 0..len(routes): routes[j].OriginAgent != t.localID
+//@ loop 1 let wasSorted = forall a in 0..len(routes): forall b in a..len(routes): routes[a].Metric <= routes[b].Metric
+//@ loop 1 invariant base(kept) == 0 || base(kept) != base(routes)
+//@ loop 1 invariant wasSorted ==> forall a in 0..len(kept): forall b in a..len(kept): kept[a].Metric <= kept[b].Metric
+//@ loop 1 invariant wasSorted ==> forall a in 0..len(routes): forall b in a..len(routes): routes[a].Metric <= routes[b].Metric
+//@ loop 1 invariant wasSorted && len(kept) > 0 ==> forall b in rangeindex+1..len(routes): kept[len(kept) - 1].Metric <= routes[b].Metric
+//@ at call builtin.mapupdate assert wasSorted ==> forall a in 0..len($2): forall b in a..len($2): $2[a].Metric <= $2[b].Metric
+//@ note a list sorted by metric when the cleanup of its key starts is stored sorted (lookups take the first entry)
+
+// ---- C09 / C10: a peer disconnect filters each key's list in place: what stays was not learned through the peer, and a
+// list that was sorted by metric when the filter started is still sorted when it is stored (lookups take the first entry) ----
+// "loop 1 let" is a snapshot of the state in which the inner loop is entered. The statement is per key; that the backing
+// arrays of different keys are disjoint (so that filtering one key cannot disturb another) is not proved.
+
+//@ func (*AgentTable).RemoveRoutesFromPeer
+//@ prop C09 C10
+//@ check lockset bounds
+//@ modifies *
+//@ loop 1 let wasSorted = forall a in 0..len(routes): forall b in a..len(routes): routes[a].Metric <= routes[b].Metric
+//@ loop 1 invariant -1 <= rangeindex && rangeindex < len(routes) && len(filtered) <= rangeindex + 1 && base(filtered) == base(routes) && offset(filtered) == offset(routes) && cap(filtered) == cap(routes)
+//@ loop 1 invariant forall j in 0..len(filtered): filtered[j].NextHop != peerID
+//@ loop 1 invariant wasSorted ==> forall a in 0..len(filtered): forall b in a..len(filtered): filtered[a].Metric <= filtered[b].Metric
+//@ loop 1 invariant wasSorted ==> forall a in rangeindex+1..len(routes): forall b in a..len(routes): routes[a].Metric <= routes[b].Metric
+//@ loop 1 invariant wasSorted && len(filtered) > 0 ==> forall b in rangeindex+1..len(routes): filtered[len(filtered) - 1].Metric <= routes[b].Metric
+//@ at call builtin.mapupdate assert $1 == agentID && (forall j in 0..len($2): $2[j].NextHop != peerID)
+//@ at call builtin.mapupdate assert wasSorted ==> forall a in 0..len($2): forall b in a..len($2): $2[a].Metric <= $2[b].Metric
+
+//@ func (*ForwardTable).RemoveRoutesFromPeer
+//@ prop C09 C10
+//@ check lockset bounds
+//@ modifies *
+//@ loop 1 invariant -1 <= rangeindex && rangeindex < len(routes) && len(filtered) <= rangeindex + 1 && base(filtered) == base(routes) && offset(filtered) == offset(routes) && cap(filtered) == cap(routes)
+//@ loop 1 invariant forall j in 0..len(filtered): filtered[j].NextHop != peerID
+//@ loop 1 let wasSorted = forall a in 0..len(routes): forall b in a..len(routes): routes[a].Metric <= routes[b].Metric
+//@ loop 1 invariant wasSorted ==> forall a in 0..len(filtered): forall b in a..len(filtered): filtered[a].Metric <= filtered[b].Metric
+//@ loop 1 invariant wasSorted ==> forall a in rangeindex+1..len(routes): forall b in a..len(routes): routes[a].Metric <= routes[b].Metric
+//@ loop 1 invariant wasSorted && len(filtered) > 0 ==> forall b in rangeindex+1..len(routes): filtered[len(filtered) - 1].Metric <= routes[b].Metric
+//@ at call builtin.mapupdate assert $1 == key && (forall j in 0..len($2): $2[j].NextHop != peerID)
+//@ at call builtin.mapupdate assert wasSorted ==> forall a in 0..len($2): forall b in a..len($2): $2[a].Metric <= $2[b].Metric
+
+//@ func filterRoutesFromPeer
+//@ prop C09 C10
+//@ check bounds
+//@ modifies *
+//@ loop 1 invariant -1 <= rangeindex && rangeindex < len(routes) && len(filtered) <= rangeindex + 1 && base(filtered) == base(routes) && offset(filtered) == offset(routes) && cap(filtered) == cap(routes)
+//@ loop 1 invariant forall j in 0..len(filtered): filtered[j].NextHop != peerID
+//@ loop 1 let wasSorted = forall a in 0..len(routes): forall b in a..len(routes): routes[a].Metric <= routes[b].Metric
+//@ loop 1 invariant wasSorted ==> forall a in 0..len(filtered): forall b in a..len(filtered): filtered[a].Metric <= filtered[b].Metric
+//@ loop 1 invariant wasSorted ==> forall a in rangeindex+1..len(routes): forall b in a..len(routes): routes[a].Metric <= routes[b].Metric
+//@ loop 1 invariant wasSorted && len(filtered) > 0 ==> forall b in rangeindex+1..len(routes): filtered[len(filtered) - 1].Metric <= routes[b].Metric
+//@ at call builtin.mapupdate assert $1 == key && (forall j in 0..len($2): $2[j].NextHop != peerID)
+//@ at call builtin.mapupdate assert wasSorted ==> forall a in 0..len($2): forall b in a..len($2): $2[a].Metric <= $2[b].Metric
+
+//@ func (*DomainTable).RemoveRoutesFromPeer
+//@ prop C09 C10
+//@ check lockset
+//@ modifies *
+//@ at call filterRoutesFromPeer assert $1 == peerID
